@@ -69,15 +69,15 @@ def fold_pw(e):
     return e
 
 
-def cf_single(e, nvals):
+def cf_single(e, subs):
     """exp-poly data of ONE closed form: {"k", "gens", "specials": [..k values..], "general": epoly}"""
     from polar_tasks import closed_form_data, enc_cf
     n_i = sp.Symbol("n", integer=True)
-    d = closed_form_data([fold_pw(e)], n_i, {}, 0)
+    d = closed_form_data([fold_pw(e)], n_i, subs, 0)
     return enc_cf(d)
 
 
-def dump_system(solver, nvals):
+def dump_system(solver, nvals, subs):
     from polar_tasks import closed_form_data, enc_cf, numeric_values
     recs = solver.solver.recurrences
     n_i = sp.Symbol("n", integer=True)
@@ -93,15 +93,15 @@ def dump_system(solver, nvals):
            "vector": [str(x) for x in recs.init_values_vector]}
     inst = {"point": {}}
     try:
-        inst["A"] = [[str(sp.nsimplify(sp.sympify(x))) for x in row] for row in out["matrix"]]
-        inst["v"] = [str(sp.nsimplify(sp.sympify(x))) for x in out["vector"]]
-        inst["cf"] = enc_cf(closed_form_data(comp, n_i, {}, 0))
+        inst["A"] = [[str(sp.nsimplify(sp.sympify(x).subs(subs))) for x in row] for row in out["matrix"]]
+        inst["v"] = [str(sp.nsimplify(sp.sympify(x).subs(subs))) for x in out["vector"]]
+        inst["cf"] = enc_cf(closed_form_data(comp, n_i, subs, 0))
     except Unsupported as u:
         inst["unsupported"] = str(u)
     except BaseException as e:  # noqa
         inst["unsupported"] = f"{type(e).__name__}: {e}"
     try:
-        inst["values"] = numeric_values(comp, n_i, {}, nvals)
+        inst["values"] = numeric_values(comp, n_i, subs, nvals)
     except BaseException as e:  # noqa
         inst["values_error"] = str(e)[:300]
     out["instance"] = inst
@@ -163,6 +163,21 @@ def task_afterloop(task):
         except Unsupported as u:
             res["original_loop_guard"] = None
         res["original_loop_guard_text"] = str(program.original_loop_guard)
+        # variables that are not initialised before the loop (the _old copies made by IfTransformer): Polar
+        # uses the symbol <var>0 for their initial value; the harness fixes the start state to the smallest
+        # value of the variable's type (Search.typed_start) and extends the initial block accordingly
+        init_vars = {str(a.variable) for a in program.initial}
+        init_ext, subs = [], {}
+        for var in sorted(program.variables, key=str):
+            if str(var) in init_vars:
+                continue
+            t = program.typedefs.get(var)
+            val = sp.Integer(0)
+            if type(t).__name__ == "Finite":
+                val = min(sp.nsimplify(sp.sympify(str(x)), rational=True) for x in t.values)
+            init_ext.append([str(var), f"{val.p}/{val.q}"])
+            subs[sp.Symbol(f"{var}0")] = val
+        res["init_extension"] = init_ext
         action = GoalsAction(args)
         rec_builder = RecBuilder(program)
         action.initialize_program(program, rec_builder)
@@ -243,7 +258,7 @@ def task_afterloop(task):
                     part["den_terms"], part["den_const"] = expansion(neg)
                     for key, e in (("num_cf", num), ("den_cf", den)):
                         try:
-                            part[key] = cf_single(e, nvals)
+                            part[key] = cf_single(e, subs)
                         except Unsupported as u:
                             part[key + "_unsupported"] = str(u)
                         except BaseException as ex:  # noqa
@@ -253,7 +268,7 @@ def task_afterloop(task):
                         s = action.solvers[symengine.sympify(mtxt)]
                         if id(s) not in systems:
                             systems[id(s)] = len(res["systems"])
-                            res["systems"].append(dump_system(s, nvals))
+                            res["systems"].append(dump_system(s, nvals, subs))
                     part["term_system"] = {mtxt: systems[id(action.solvers[symengine.sympify(mtxt)])]
                                            for _, mtxt, _ in part["num_terms"] + part["den_terms"]}
                 except BaseException as e:  # noqa
@@ -264,3 +279,18 @@ def task_afterloop(task):
             os.unlink(path)
         except OSError:
             pass
+
+
+def task_limit(task):
+    """limit n -> infinity of an expression in n the way the repaired transform_to_after_loop would take it
+    (one integer symbol n everywhere); used to keep checking the printed value when Polar took no limit"""
+    from sympy import limit_seq
+    n_i = sp.Symbol("n", integer=True)
+    e = sp.sympify(task["expr"]).xreplace({sp.Symbol("n"): n_i})
+    try:
+        lim = limit_seq(e, n_i)
+    except BaseException as ex:  # noqa
+        return {"error": "limit", "msg": f"{type(ex).__name__}: {ex}"[:300]}
+    if lim is None:
+        return {"limit": None}
+    return {"limit": _rat(lim) if not sp.sympify(lim).free_symbols else "?" + str(lim)}
